@@ -229,7 +229,7 @@ def aggregates(fn, adt_suffix, variant=None):
 # ---------------------------------------------------------------------------------------------
 # gates: which switch edges dominate a block
 # ---------------------------------------------------------------------------------------------
-def gates(body, bb):
+def gates(body, bb, up=True):
     """[(discr-sym, label)] for every switch edge that every path from entry to bb must take.
     For enum switches `otherwise` is renamed to the single uncovered variant when there is one;
     for bool switches labels are True/False."""
@@ -262,6 +262,14 @@ def gates(body, bb):
             if d and d[0] == "discr":
                 d = strip_sym(d[1])
             out.append((d, lab))
+    # a closure body runs under the conditions under which the closure was created in its parent
+    fn = body.fn
+    par = getattr(fn, "parent", None)
+    if up and par is not None and fn.dk == "Closure":
+        for i, k, st in par.body.stmts():
+            if st["k"] == "assign" and st["rv"]["k"] == "agg" and st["rv"].get("closure") == fn.path:
+                out.extend(gates(par.body, i))
+                break
     return out
 
 
@@ -490,4 +498,29 @@ def enum_arms(fn, enum_suffix, which=0):
                 rets.append(("call", tt.get("resolved") or tt.get("callee") or "?", tuple(sy.operand(a) for a in tt["args"]), tt.get("callee")))
         out[v] = {"blocks": blocks, "calls": calls, "ret": rets[0] if len(rets) == 1 else (("phi", tuple(rets)) if rets else None), "target": tgt}
     out["__switch__"] = sw
+    return out
+
+
+def drop_blocks_of(body, local):
+    """Blocks that drop `local` or a local it is moved into (Drop terminators and mem::drop calls)."""
+    alias = {local}
+    changed = True
+    while changed:
+        changed = False
+        for i, k, s in body.stmts():
+            if s["k"] == "assign" and not s["p"].get("pr") and s["rv"]["k"] == "use":
+                p = s["rv"]["a"].get("move")
+                if p and p["l"] in alias and not p.get("pr") and s["p"]["l"] not in alias:
+                    alias.add(s["p"]["l"])
+                    changed = True
+    out = set()
+    for i in range(body.n):
+        t = body.term(i)
+        if t["k"] == "drop" and t["p"]["l"] in alias and not t["p"].get("pr"):
+            out.add(i)
+        elif t["k"] == "call" and path_is(t.get("callee"), "mem::drop"):
+            for a in t["args"]:
+                p = a.get("move")
+                if p and p["l"] in alias and not p.get("pr"):
+                    out.add(i)
     return out
